@@ -64,7 +64,65 @@ def plan_c15(tier):
     )
 
 
+def sharded(binary, engine, tier, n, profiles, parities, feat="std", extra=None):
+    ws = []
+    for prof in profiles:
+        for par in parities:
+            for i in range(n):
+                ws.append(W(binary, [engine, "--tier", tier, "--parity", par, "--shard", str(i), "--nshards", str(n)] + (extra or []), feat=feat, profile=prof))
+    return ws
+
+
+def plan_c09(tier):
+    if tier == "thorough":
+        ws = sharded("bufmc", "c09", "thorough", 32, ["rel", "dbg"], ["even", "odd"])
+    else:
+        ws = sharded("bufmc", "c09", "quick", 16, ["rel"], ["even"])
+    return dict(
+        workers=ws, level="model_checking", distinct_is_max=False,
+        rule="explicit-state exploration of the real crate: every adapter tree (leaves: &[u8], Bytes x5 representations, BytesMut x3, io::Cursor incl. position past the end, "
+             "VecDeque at every wrap position, lawful multi-chunk user Bufs with default and full chunks_vectored; nodes: Take with limits {0,1,rem-1,rem,rem+1,MAX}, Chain, &mut, Box<dyn Buf>; every "
+             "distribution of the payload over the leaves incl. empty leaves) x every sequence of consuming operations (advance/copy_to_slice/try_copy_to_slice/copy_to_bytes with k in {0,1,2,rem-1,rem,rem+1}, get_u8, "
+             "set_limit, into_iter) up to the depth bound; at every reached state remaining/chunk/chunks_vectored(dst 0,1,2,3,17) and the structural model are checked. "
+             "state = (tree, op sequence); distinct_nontrivial = distinct trees",
+        bounds="quick: payload<=4 (chains<=3), <=2 leaves, <=2 unary adapters, op depth 2; thorough: payload<=6, <=3 leaves, <=3 unary adapters, op depth 3 (2 for chains), both parities and profiles",
+        assumptions=["a flat Vec<u8> denotation of the tree is the reference", "payload sizes and adapter depth are bounded as stated"],
+    )
+
+
+def plan_c10(tier):
+    if tier == "thorough":
+        ws = sharded("bufmc", "c10", "thorough", 16, ["rel", "dbg"], ["even", "odd"])
+    else:
+        ws = sharded("bufmc", "c10", "thorough", 16, ["rel", "dbg"], ["even"])
+    return dict(
+        workers=ws, level="model_checking", distinct_is_max=False,
+        rule="complete table: every get_X/try_get_X (76 fixed-size + 6 variable x nbytes 0..=8, and nbytes 9/16/MAX must panic) x buffer shapes (contiguous in every leaf type; 2 chunks with the boundary at every position; "
+             "3 chunks incl. empty middle and both boundaries at every position; one byte per chunk; ring buffer wrapping at every position; behind Take/&mut/Box<dyn Buf>) x 0..=2 bytes consumed before "
+             "x tail 0..=1 x byte patterns (msb,lsb in {00,01,7f,80,ff}^2 with position-coded middle bytes; all 256 values for 1-byte, all 65536 for 16-bit types) x shortfalls 0..size-1; expected value "
+             "decoded independently; cursor position verified by draining the rest. distinct_nontrivial = distinct expected values",
+        assumptions=["independent decoder in the harness (manual shift/or, two's complement) is the reference"],
+    )
+
+
+def plan_c12(tier):
+    if tier == "thorough":
+        ws = sharded("bufmc", "c12r", "thorough", 32, ["rel", "dbg"], ["even"])
+    else:
+        ws = sharded("bufmc", "c12r", "quick", 16, ["rel"], ["even"])
+    return dict(
+        workers=ws, level="model_checking", distinct_is_max=False,
+        rule="the adapter trees of C09 with Reader roots (io::Read::read with every dst size, BufRead::fill_buf/consume) and Take roots with set_limit in mid-stream; after every operation limit(), get_ref(), "
+             "first_ref/last_ref and every inner buffer's position are compared with a structural model by recursion over the typed tree",
+        bounds="as C09",
+        assumptions=["structural model: Take(limit, inner), Chain(a, b), leaves with their remaining bytes"],
+    )
+
+
 PLANS = {
+    "C09": plan_c09,
+    "C10": plan_c10,
+    "C12": plan_c12,
     "C14": plan_c14,
     "C15": plan_c15,
 }
